@@ -96,19 +96,35 @@ theorem canonicalName_ends_dot (s : Str) : ∃ t, canonicalName s = t ++ ['.'] :
     rw [List.map_append]
     simp [lowerAscii]
 
+theorem escBar_append (a b : Str) : escBar (a ++ b) = escBar a ++ escBar b := by
+  simp [escBar]
+
+theorem escBar_noBar (s : Str) : hasChar '|' (escBar s) = false := by
+  induction s with
+  | nil => rfl
+  | cons c s ih =>
+    have e : escBar (c :: s) = (if c = '|' then ['\\', '1', '2', '4'] else [c]) ++ escBar s := by simp [escBar]
+    rw [e, hasChar_append, ih]
+    by_cases hc : c = '|'
+    · rw [if_pos hc]; decide
+    · rw [if_neg hc]; simp [hc]
+
 /-- a key `canonicalName n ++ q` with a dot-free suffix `q` splits at its last dot into the name
 (without the final dot) and `q`. -/
 theorem key_splitLast (n q : Str) (hq : hasChar '.' q = false) :
-    ∃ t, canonicalName n = t ++ ['.'] ∧ splitLast '.' (canonicalName n ++ q) = some (t, q) := by
-  obtain ⟨t, ht⟩ := canonicalName_ends_dot n
-  refine ⟨t, ht, ?_⟩
-  rw [ht]
-  have : t ++ ['.'] ++ q = t ++ '.' :: q := by simp
+    ∃ t, escBar (canonicalName n) = t ++ ['.'] ∧ splitLast '.' (escBar (canonicalName n) ++ q) = some (t, q) := by
+  obtain ⟨t0, ht⟩ := canonicalName_ends_dot n
+  have e : escBar (canonicalName n) = escBar t0 ++ ['.'] := by
+    rw [ht, escBar_append]; rfl
+  refine ⟨escBar t0, e, ?_⟩
+  rw [e]
+  have : escBar t0 ++ ['.'] ++ q = escBar t0 ++ '.' :: q := by simp
   rw [this]
-  exact splitLast_append t q hq
+  exact splitLast_append _ q hq
 
 theorem key_inj (a b qa qb : Str) (ha : hasChar '.' qa = false) (hb : hasChar '.' qb = false)
-    (h : canonicalName a ++ qa = canonicalName b ++ qb) : canonicalName a = canonicalName b ∧ qa = qb := by
+    (h : escBar (canonicalName a) ++ qa = escBar (canonicalName b) ++ qb) :
+    escBar (canonicalName a) = escBar (canonicalName b) ∧ qa = qb := by
   obtain ⟨ta, ea, sa⟩ := key_splitLast a qa ha
   obtain ⟨tb, eb, sb⟩ := key_splitLast b qb hb
   rw [h, sb] at sa
@@ -126,14 +142,14 @@ theorem qtypeStr_noDot (b : Bool) : hasChar '.' (qtypeStr b) = false := by cases
 
 /-- `cacheKey` is injective up to the canonical form of the name. -/
 theorem cacheKey_inj (a b : Str) (x y : Bool) (h : cacheKey a x = cacheKey b y) :
-    canonicalName a = canonicalName b ∧ x = y := by
+    escBar (canonicalName a) = escBar (canonicalName b) ∧ x = y := by
   obtain ⟨h1, h2⟩ := key_inj a b _ _ (qtypeStr_noDot x) (qtypeStr_noDot y) h
   refine ⟨h1, ?_⟩
   cases x <;> cases y <;> simp [qtypeStr] at h2 <;> rfl
 
 /-- a general-type key equal to an A/AAAA key: same canonical name, and the type is A resp. AAAA. -/
 theorem cacheKeyQ_eq_cacheKey (a b : Str) (q : Nat) (x : Bool) (h : cacheKeyQ a q = cacheKey b x) :
-    canonicalName a = canonicalName b ∧ itoa q = qtypeStr x :=
+    escBar (canonicalName a) = escBar (canonicalName b) ∧ itoa q = qtypeStr x :=
   key_inj a b _ _ (itoa_noDot q) (qtypeStr_noDot x) h
 
 end DaeVerif.C18
